@@ -130,7 +130,12 @@ pub const WITNESSES: [(&str, &str, &str); 5] = [
 /// hand-written grammars that are always part of the behavioural batch: one per mechanism in which the two back-ends are
 /// built differently (atomic sequences / repetitions and the implicit skip, the skip with overlapping WHITESPACE / COMMENT,
 /// the modifier wrappers entered from an atomic caller, flattened sequences around stack operations)
-pub const PROBES: [&str; 10] = [
+pub const PROBES: [&str; 14] = [
+    // WHITESPACE / COMMENT of the `$` `@` modifiers that call non-silent rules (their pairs are kept under `$`, dropped under `@`)
+    "r0 = { \"x\" ~ \"x\" }\nCOMMENT = ${ \"5\" ~ body ~ \"5\" }\nbody = { \"y\"* }\n",
+    "r0 = { \"x\" ~ \"x\" }\nWHITESPACE = ${ sp+ }\nsp = { \" \" }\nCOMMENT = @{ \"5\" ~ body }\nbody = { \"y\" }\n",
+    "r0 = @{ r1 ~ r1 }\nr1 = !{ \"x\" ~ \"y\"? }\nWHITESPACE = ${ sp }\nsp = { \" \" | NEWLINE }\n",
+    "r0 = { \"x\"+ ~ EOI }\nCOMMENT = ${ open ~ (!close ~ ANY)* ~ close }\nopen = { \"5\" }\nclose = { \"y\" }\nWHITESPACE = _{ \" \" }\n",
     "r0 = @{ \"x\" ~ \"y\" ~ \"x\" }\nWHITESPACE = _{ \" \" }\n",
     "r0 = @{ \"x\"* ~ \"y\" }\nr1 = { \"x\"* ~ \"y\" }\nWHITESPACE = _{ \" \" }\n",
     "r0 = { \"x\" ~ \"y\" }\nWHITESPACE = { \" \" | \"5 \" }\nCOMMENT = { \"5\" }\n",
@@ -161,7 +166,7 @@ fn tv_line(text: &str, w: &mut dyn Write, stats: &mut (u64, u64, u64)) {
         .and_then(|ts| syn::parse2::<syn::File>(ts.clone()).map_err(|e| format!("emitted code is not a Rust file: {} :: {}", e, esc(&ts.to_string()).chars().take(600).collect::<String>())))
         .and_then(|f| genread::read_parser(&f, &uni, &ranges));
     match read {
-        Ok(p) => { if p.fns.iter().any(|(_, b)| b.size() > 6) { stats.2 += 1; } writeln!(w, "T\t{}\t{}\t{}\t{}", extras, orig, osexp, genread::show(&p)).unwrap() }
+        Ok(p) => { if p.fns.iter().any(|(_, b)| b.size() > 6) { stats.2 += 1; } writeln!(w, "T\t{}\t{}\t{}\t{}\t{}", extras, orig, osexp, genread::show(&p), esc(text)).unwrap() }
         Err(e) => writeln!(w, "TE\t{}\t{}\t{}\t{}", extras, osexp, esc(&e), esc(text)).unwrap(),
     }
 }
@@ -238,6 +243,14 @@ fn main() {
             } else {
                 WITNESSES.iter().filter(|(_, x, _)| x.is_empty() || extras).map(|(_, _, t)| t.to_string()).chain(PROBES.iter().map(|t| t.to_string())).collect()
             };
+            // the per-built-in differential: every name the VM hard-codes, alone and followed by a literal
+            let builtin_texts: Vec<String> = if file.is_empty() && !extras { genread::FIXED_BUILTINS.iter().map(|n| format!("r0 = {{ {} }}\nr1 = {{ {} ~ \"x\" }}\n", n, n)).collect() } else { vec![] };
+            texts.extend(builtin_texts.iter().cloned());
+            let lit_mode = arg(5) == "lit";
+            let mode_of = |t: &str| -> u8 {
+                if lit_mode { 3 } else if builtin_texts.iter().any(|b| b == t) { 1 }
+                else if ["NEWLINE", "ANY", "ASCII"].iter().any(|k| t.contains(k)) || UNICODE.iter().any(|k| t.contains(k)) { 2 } else { 0 }
+            };
             texts.retain(|t| derive_tokens(t).ok().and_then(|ts| syn::parse2::<syn::File>(ts).ok()).is_some());
             let count = if file.is_empty() { count + texts.len() as u64 } else { 0 };
             let mut tries = 0;
@@ -264,7 +277,7 @@ fn main() {
             writeln!(w, "const NGRAMMARS: usize = {};", texts.len()).unwrap();
             writeln!(w, "fn run_all(maxlen: usize, from: usize, to: usize) {{").unwrap();
             for (i, t) in texts.iter().enumerate() {
-                writeln!(w, "    if from <= {i} && {i} < to {{ run_grammar({i}, {t}, g{i}::Rule::all_rules(), &|r, inp| obs_derive(g{i}::P::parse(r, inp)), maxlen); }}", i = i, t = rust_str(t)).unwrap();
+                writeln!(w, "    if from <= {i} && {i} < to {{ run_grammar({i}, {t}, g{i}::Rule::all_rules(), &|r, inp| obs_derive(g{i}::P::parse(r, inp)), maxlen, {m}); }}", i = i, t = rust_str(t), m = mode_of(t)).unwrap();
             }
             writeln!(w, "}}").unwrap();
         }
